@@ -77,7 +77,7 @@ func init() {
 			"parts merged along a random binary tree / left-deep / right-deep order by MergeWith or DecodeAndMergeWith(Encode(part)); oracle = bitwise equality of the full observation (bins, zero weight, count, extremes, quantile grid) with the single sketch, argument snapshot unchanged by each merge, empty merge is a no-op. " +
 			"Non-trivial = >=2 non-empty parts of different store kinds and >=1 zero value; distinct = hash of (mapping, values, partition, tree).",
 		Cases:     core.Scale(60000, 1500000),
-		Mandatory: []string{"oracle.merge_equalities", "oracle.argument_unchanged", "merge.empty_argument", "merge.via_decode", "merge.cross_kind", "part.cleared_before_use", "part.cleared_before_use.other_range"},
+		Mandatory: []string{"oracle.merge_equalities", "oracle.argument_unchanged", "merge.empty_argument", "merge.via_decode", "merge.cross_kind", "part.cleared_before_use", "part.cleared_before_use.other_range", "merge.into_a_copy_of_the_receiver", "oracle.argument_unchanged_later"},
 		Assumptions: []string{
 			"unit weights: all sums exact, so bitwise equality is legitimate",
 		},
@@ -507,6 +507,19 @@ func runC02(c *core.Ctx) {
 		if failed {
 			return a
 		}
+		if r.P(0.25) {
+			// the usual accumulator idiom: acc := first.Copy(); acc.MergeWith(next)...  The part the copy was taken
+			// from stays as it is, whatever its copy absorbs from now on
+			snap := observeNoSum(a.s, extraQ)
+			var cp mon.Sketch
+			if c.Guard("Copy", func() { cp = a.s.Copy() }) {
+				failed = true
+				return a
+			}
+			merged = append(merged, argSnap{a, snap})
+			a = &part{s: cp, spec: a.spec, n: a.n}
+			c.Count("merge.into_a_copy_of_the_receiver", 1)
+		}
 		// merge b into a
 		before := observeNoSum(b.s, extraQ)
 		var recvBefore *mon.Obs
@@ -568,7 +581,7 @@ func runC02(c *core.Ctx) {
 	for _, a := range merged {
 		c.Count("oracle.argument_unchanged_later", 1)
 		if d := a.obs.Diff(observeNoSum(a.p.s, extraQ)); d != "" {
-			c.Failf("merge.argument_changed_later", "a sketch that had been the argument of a merge changed when its receiver was used further: %s", d)
+			c.Failf("merge.argument_changed_later", "a sketch that had been the argument of a merge (or the source of the copy that received it) changed when the receiver was used further: %s", d)
 			return
 		}
 	}
